@@ -38,7 +38,7 @@ results, lock = {}, threading.Lock()
 
 
 def worker(k):
-    base = "/var/tmp/ss-%d" % k
+    base = "/var/tmp/ss-%d-%d" % (os.getpid(), k)
     shutil.rmtree(base, ignore_errors=True)
     os.makedirs(base)
     sh("cp -a /verif %s/verif && rm -rf %s/verif/.git && git clone -q /repo %s/repo" % (base, base, base))
